@@ -322,8 +322,15 @@ func (w *world) patience() time.Duration {
 	if w.problem != "" {
 		return 50 * time.Millisecond
 	}
+	if anomalies >= 3 {
+		return 200 * time.Millisecond
+	}
 	return Deadline
 }
+
+// anomalies counts the scenarios of this run that got stuck; after a few of them the run is a
+// violation anyway and the remaining scenarios stop waiting the full deadline.
+var anomalies int
 
 func (w *world) note(format string, a ...interface{}) {
 	if w.problem == "" {
@@ -868,6 +875,9 @@ func runOne(root string, sc scenario, backend string) (outcome, error) {
 		w.do(e)
 	}
 	o := outcome{sc: sc, backend: backend, obs: w.finish(), toks: w.toks, problem: w.problem}
+	if w.problem != "" {
+		anomalies++
+	}
 	for _, r := range w.runs {
 		o.wins = append(o.wins, r.windowed)
 		o.winRnds = append(o.winRnds, r.winRounds)
@@ -971,6 +981,7 @@ func monitor(rep *emit.Report, o outcome) {
 func Run(outDir string, seed int64, tier string) error {
 	rep := emit.NewReport("stream", seed, tier)
 	classCount = map[string]int{}
+	anomalies = 0
 	templates = map[string]string{}
 	rng := rand.New(rand.NewSource(seed))
 	root, err := os.MkdirTemp("", "zzv-stream-")
